@@ -5,6 +5,7 @@ import PieModel.Props.C01FullCex
 import PieModel.Props.C02IdemW
 import PieModel.Props.C04Just
 import PieModel.Props.C01FullMixed
+import PieModel.Props.C01Trans
 #print axioms PieModel.C02_consistent_memo
 #print axioms PieModel.C02_consistent_memo_sound
 #print axioms PieModel.C02_settled
@@ -46,3 +47,5 @@ import PieModel.Props.C01FullMixed
 #print axioms PieModel.C02_output_trace
 #print axioms PieModel.C02_consistent_not_executed_trace
 #print axioms PieModel.C02_minimal_mixed_history
+#print axioms PieModel.C02_trans_minimal
+#print axioms PieModel.C02_trans_minimal_history
